@@ -88,6 +88,8 @@ class G(object):
         self.budget = rng.randint(18, 60)
         self.p_read = rng.choice([0.15, 0.3, 0.3, 0.5])
         self.deviant = rng.random() < 0.5      # allow constructs supp is known to skip (kw-default lambdas, ...)
+        # never-read outer binding + nested class body / function that rebinds it conditionally and calls locals()
+        self.p_shadow = rng.choice([0.0, 0.04, 0.08, 0.15])
 
     # -- identifiers ----------------------------------------------------------------------
     def ident(self, avoid=(), reuse=0.2):
@@ -311,6 +313,10 @@ class G(object):
         self.budget -= 1
         x = r.random()
         deep = ind >= 5
+        if not deep and ctx.kind in ('module', 'function') and ctx.depth <= 2 and r.random() < self.p_shadow:
+            return self.locals_shadow(ctx, ind)
+        if ctx.kind in ('class', 'function') and ctx.depth >= 1 and r.random() < 0.03:
+            return self.locals_stmt(ind)
         if x < 0.66:
             kinds = list(STMT_KINDS)
             if deep:
@@ -339,6 +345,178 @@ class G(object):
                 self.suite(ctx, ind + 1)
             return
         return self.noise(ctx, ind)
+
+    # -- locals() next to conditional rebinding of an outer, never-read identifier ---------------
+    def fresh_unread(self):
+        r = self.r
+        self.counter += 1
+        x = r.random()
+        if x < 0.8:
+            id = 'n%d' % self.counter
+        elif x < 0.9:
+            id = '_n%d' % self.counter
+        else:
+            id = r.choice(['sa', 'sb', 'v1', 'v2', 'sf'])
+            if self.decided.get(id):
+                id = 'n%d' % self.counter
+        self.decided[id] = False
+        return id
+
+    def locals_stmt(self, ind):
+        r = self.r
+        self.emit(ind, r.choice(['locals()', 'use(locals())', 'ns = locals()', 'if locals(): pass',
+                                 'use(0, locals())', 'ns = dict(locals())', 'assert locals()',
+                                 'use(locals().get(0))']))
+
+    def bind_simple(self, ctx, ind, id):
+        """one binding of id in ctx, of a random kind"""
+        r = self.r
+        k = r.choice(['import', 'import', 'import-as', 'from', 'from-as', 'dotted', 'assign', 'assign', 'ann',
+                      'for', 'with', 'def', 'class', 'except', 'unpack', 'walrus'])
+        if id in ctx.gl or id in ctx.nl:
+            k = 'assign'
+        e = ind
+        if k == 'import':
+            self.emit(e, 'import %s' % id)
+        elif k == 'import-as':
+            self.emit(e, 'import %s as %s' % (r.choice(['pm', 'pk.sub', 'json']), id))
+        elif k == 'from':
+            self.emit(e, 'from %s import %s' % (r.choice(['pm', 'os', 'pk']), id))
+        elif k == 'from-as':
+            self.emit(e, 'from pm import sa as %s' % id)
+        elif k == 'dotted':
+            self.emit(e, 'import %s.sub' % id)
+        elif k == 'assign':
+            self.emit(e, '%s = %s' % (id, r.choice(['0', 'it()', '{}', 'None'])))
+        elif k == 'ann':
+            self.emit(e, '%s: int = 0' % id)
+        elif k == 'for':
+            self.emit(e, 'for %s in it():' % id)
+            self.emit(e + 1, 'pass')
+        elif k == 'with':
+            self.emit(e, 'with cm() as %s:' % id)
+            self.emit(e + 1, 'pass')
+        elif k == 'def':
+            self.emit(e, 'def %s():' % id)
+            self.emit(e + 1, 'pass')
+        elif k == 'class':
+            self.emit(e, 'class %s:' % id)
+            self.emit(e + 1, 'pass')
+        elif k == 'except':
+            self.emit(e, 'try:')
+            self.emit(e + 1, 'pass')
+            self.emit(e, 'except Err as %s:' % id)
+            self.emit(e + 1, 'pass')
+        elif k == 'unpack':
+            self.emit(e, '%s, _ = it()' % id)
+        else:
+            self.emit(e, 'use((%s := it()))' % id)
+        if id not in ctx.gl:
+            ctx.bound.add(id)
+
+    def rebind_conditionally(self, ind, id, allow_import=True):
+        r = self.r
+        forms = ['if', 'ifelse', 'elif', 'try', 'exceptas', 'for', 'while', 'withif', 'forelse', 'tryelse']
+        if allow_import:
+            forms += ['ifimport', 'tryimport']
+        k = r.choice(forms)
+        v = r.choice(['0', 'None', 'it()', "'s'"])
+        if k == 'if':
+            self.emit(ind, 'if it():')
+            self.emit(ind + 1, '%s = %s' % (id, v))
+        elif k == 'ifelse':
+            self.emit(ind, 'if it():')
+            self.emit(ind + 1, '%s = %s' % (id, v))
+            self.emit(ind, 'else:')
+            self.emit(ind + 1, 'pass')
+        elif k == 'elif':
+            self.emit(ind, 'if it():')
+            self.emit(ind + 1, 'pass')
+            self.emit(ind, 'elif it():')
+            self.emit(ind + 1, '%s = %s' % (id, v))
+        elif k == 'try':
+            self.emit(ind, 'try:')
+            self.emit(ind + 1, '%s = it()' % id)
+            self.emit(ind, 'except Err:')
+            self.emit(ind + 1, 'pass')
+        elif k == 'exceptas':
+            self.emit(ind, 'try:')
+            self.emit(ind + 1, 'it()')
+            self.emit(ind, 'except Err as %s:' % id)
+            self.emit(ind + 1, 'pass')
+        elif k == 'for':
+            self.emit(ind, 'for %s in it():' % id)
+            self.emit(ind + 1, 'pass')
+        elif k == 'while':
+            self.emit(ind, 'while it():')
+            self.emit(ind + 1, '%s = %s' % (id, v))
+        elif k == 'withif':
+            self.emit(ind, 'with cm():')
+            self.emit(ind + 1, 'if it():')
+            self.emit(ind + 2, '%s: int = 0' % id)
+        elif k == 'forelse':
+            self.emit(ind, 'for _ in it():')
+            self.emit(ind + 1, 'pass')
+            self.emit(ind, 'else:')
+            self.emit(ind + 1, '%s = %s' % (id, v))
+        elif k == 'tryelse':
+            self.emit(ind, 'try:')
+            self.emit(ind + 1, 'it()')
+            self.emit(ind, 'except Err:')
+            self.emit(ind + 1, '%s = %s' % (id, v))
+            self.emit(ind, 'else:')
+            self.emit(ind + 1, 'pass')
+        elif k == 'ifimport':
+            self.emit(ind, 'if it():')
+            self.emit(ind + 1, r.choice(['import %s', 'import pm as %s', 'from pm import %s']) % id)
+        else:
+            self.emit(ind, 'try:')
+            self.emit(ind + 1, 'import %s' % id)
+            self.emit(ind, 'except ImportError:')
+            self.emit(ind + 1, 'pass')
+
+    def locals_shadow(self, ctx, ind):
+        r = self.r
+        self.budget -= 3
+        ids = [self.fresh_unread() for _ in range(r.choice([1, 1, 2, 3]))]
+        if ctx.kind == 'function':
+            ps = [p for p in sorted(ctx.params) if p != 'self' and self.decided.get(p) is False
+                  and p not in ctx.gl and p not in ctx.nl]
+            if ps and r.random() < 0.5:
+                ids.append(r.choice(ps))
+        outer_first = r.random() < 0.75
+        fresh = [i for i in ids if i not in ctx.params]
+        if outer_first:
+            for id in fresh:
+                self.bind_simple(ctx, ind, id)
+        inner_class = r.random() < 0.7
+        name = self.tid(ctx, 'class' if inner_class else 'def', avoid=ids)
+        if inner_class:
+            self.emit(ind, 'class %s%s:' % (name, r.choice(['', '', '(object)', '(Err)'])))
+            inner = Ctx('class', ctx)
+        else:
+            inner = Ctx('function', ctx)
+            self.emit(ind, 'def %s(%s):' % (name, r.choice(['', '', 'a0', 'a0, *a1', '*, k0=0'])))
+        if r.random() < 0.3:
+            self.stmt(inner, ind + 1)
+        if r.random() < 0.15:
+            self.locals_stmt(ind + 1)
+        for id in ids:
+            if r.random() < 0.85:
+                self.rebind_conditionally(ind + 1, id)
+            else:
+                self.emit(ind + 1, '%s = 0' % id)
+        if r.random() < 0.2:
+            self.emit(ind + 1, 'if it():')
+            self.locals_stmt(ind + 2)
+        else:
+            self.locals_stmt(ind + 1)
+        for _ in range(r.choice([0, 0, 1, 2])):
+            self.stmt(inner, ind + 1)
+        if not outer_first:
+            for id in fresh:
+                self.bind_simple(ctx, ind, id)
+        self.reads(ctx, ind, [name])
 
     def noise(self, ctx, ind):
         r = self.r
